@@ -26,7 +26,10 @@ func floodRun(e *Env) {
 	g := G{e.S}
 	created := e.S.Now()
 	startFlood := g.Pct(15)
-	s := startSession(e, ClientOpts{Nick: "me", Flood: startFlood}, func(l *simnet.Link) { l.ChunkMode = g.Intn(4) })
+	// (no SASL knob here: it would add CAP LS to the registration, and this
+	// world accounts for every line on the wire)
+	s := startSession(e, ClientOpts{Nick: "me", Flood: startFlood, Timeout: []time.Duration{0, time.Second, 10 * time.Minute}[g.Intn(3)], SplitLen: []int{0, 50, 2000}[g.Intn(3)]},
+		func(l *simnet.Link) { l.ChunkMode = g.Intn(4) })
 	// idle time between creating the client and connecting is part of the
 	// history: the penalty clock starts at creation
 	preGap := []time.Duration{0, 0, time.Second, 30 * time.Second}[g.Intn(4)]
